@@ -178,7 +178,8 @@ type MsgSpec struct {
 	IssueInstantNs  int64  `json:"issueInstantNs,omitempty"`
 	TimeLit         string `json:"timeLit,omitempty"` // literal replacing the NotOnOrAfter/NotBefore lexical form (malformed timestamps)
 	TimeLitWhich    int    `json:"timeLitWhich,omitempty"`
-	DelayNs         int64  `json:"delayNs,omitempty"` // browser delay between SP stamping and delivery (clock advances first)
+	DelayNs         int64  `json:"delayNs,omitempty"`     // browser delay between SP stamping and delivery (clock advances first)
+	DelayAnchor     string `json:"delayAnchor,omitempty"` // "", notOnOrAfter, notBefore, issueInstant: deliver at that instant of the message (as written in it) + DelayNs
 
 	// callback
 	Session int    `json:"session,omitempty"`
@@ -223,6 +224,7 @@ type Step struct {
 
 	Pick  int    `json:"pick,omitempty"`
 	Pick2 int    `json:"pick2,omitempty"`
+	ByID  bool   `json:"byID,omitempty"` // Pick names a task id instead of an index into the parked set
 	Fault string `json:"fault,omitempty"`
 
 	Ns int64 `json:"ns,omitempty"`
@@ -254,6 +256,8 @@ type Plan struct {
 	World    WorldCfg `json:"world"`
 	Steps    []Step   `json:"steps"`
 	Recovery bool     `json:"recovery,omitempty"` // append the recovery phase after the steps
+
+	BystanderSig string `json:"bystanderSig,omitempty"` // C10 enumeration: the bystander's reply in the fault-free run
 
 	Violation *ViolationRec `json:"violation,omitempty"`
 }
